@@ -368,4 +368,4 @@ def hexes_close(hexes, fracs, tol=TOL_T):
 def emm_entry(trajs):
     """model entry for estimate_markov_model: 101 also evaluates the nth-based specification form of the
     counts (quadratic in the length); beyond 3000 frames 102 returns the code-shaped counts, proved equal"""
-    return 101 if sum(len(t) for t in trajs) <= 3000 else 102
+    return 101 if sum(len(t) for t in trajs) <= 3000 and len({v for t in trajs for v in t}) <= 12 else 102
